@@ -266,6 +266,35 @@ def run(ctx: Ctx) -> None:
                         f"holds {np.asarray(inst2).tolist()}",
                         {"W": W, "H": H, "rows": rows})
                     break
+                # the same rows in other legal memory layouts
+                base = np.array(rows, dt)
+                big = np.zeros((2 * len(rows), 6), dt)
+                big[::2, ::2] = base
+                for lname, arr in (
+                        ("Fortran-ordered array", np.asfortranarray(base)),
+                        ("transposed view of a (3, n) array",
+                         np.ascontiguousarray(base.T).T),
+                        ("strided view", big[::2, ::2]),
+                        ("reversed view", base[::-1][::-1])):
+                    al += 1
+                    try:
+                        inst3 = Instance("v", W, H, arr)
+                        got3 = np.asarray(inst3).tolist()
+                        nit3 = inst3.n_items
+                    except (TypeError, ValueError):
+                        continue    # refused loudly: nothing is stored
+                    except Exception as e:  # noqa
+                        got3 = f"{type(e).__name__}: {e}"
+                        nit3 = -1
+                    if got3 != rows or nit3 != ref.n_items:
+                        ctx.violation(
+                            "Instance|stored matrix differs from the given "
+                            "one|memory layout",
+                            f"bin {W}x{H} items={rows} handed over as "
+                            f"{lname} ({dt}): the instance holds {got3}, "
+                            f"n_items={nit3}", {"W": W, "H": H,
+                                                "rows": rows})
+                        break
             if ctx.too_many():
                 break
     ctx.add("evaluations", al)
